@@ -101,7 +101,7 @@ def mask(o):
     if o.kind != "R":
         return (o.kind,)
     n = net.norm_frame(o.reply)
-    return ("R",) + tuple(runner.DATE_RE.sub(b"\nDate: X\n", x) if isinstance(x, (bytes, bytearray)) else x for x in n)
+    return ("R",) + tuple(runner.mask_app(x) if isinstance(x, (bytes, bytearray)) else x for x in n)
 
 
 def own_bits(scripts):
